@@ -301,7 +301,9 @@ def step (s : Sys) : Op → Option Sys
     match getSub s p with
     | some x =>
       -- truthful squeue: a batch the scheduler still runs is always listed
-      if x.pc = .loaded ∧ !x.isCancel ∧ gone.all (fun h => !activeB s h) then
+      -- …and a batch that has ended is no longer listed as active (not listed, or a finished word)
+      if x.pc = .loaded ∧ !x.isCancel ∧ gone.all (fun h => !activeB s h) ∧
+          x.out.all (fun h => activeB s h || gone.contains h) then
         some (setSub s p { x with pc := .collecting, out := x.out.filter (fun h => !gone.contains h) })
       else none
     | none => none
